@@ -148,6 +148,15 @@ def run(ctx):
         if len(data) > 60000:
             continue
         cs.append(dict(name=name, data=data, variants=mkvariants(rnd, nvar, True, len(data), plen(data))))
+    # coding groups of (nearly) 1000 bits next to input-block boundaries: many input block sizes
+    for i in range(8 if q else 80):
+        data = bs.build([bs.Stream(rnd.randint(1, 9), [bs.maxlen_block(rnd, 9) for _ in range(rnd.randint(1, 2))])])
+        vs = mkvariants(rnd, nvar // 2, True, len(data), plen(data))
+        for v in vs:
+            v['env']['LBZIP2_VERIF_IN_GRANUL'] = str(4 * rnd.randrange(32, 700))
+            if 'straggler' in v['env'].get('LBZIP2_VERIF_SCHED', ''):
+                v['env'].pop('LBZIP2_VERIF_SCHED')
+        cs.append(dict(name='synth:maxlen-groups', data=data, variants=vs))
     for i in range(nbig):
         d = gen.make(rnd, rnd.choice(['text', 'runs', 'uniform', 'concat']), rnd.choice([400000, 1200000]), 1)
         data = core.run([lb, '-%d' % rnd.choice([1, 2, 9]), '-n', '4'], stdin=d, timeout=120).out
